@@ -84,3 +84,30 @@ PROPS["C06"] = dict(
     trusted=COMMON_TRUST + ["values are small integers, so products and sums are exact and 'dropped below 1e-16' means 'exactly zero'"],
     assumptions=["floating-point reassociation is outside the theorem (exact arithmetic)"],
 )
+
+
+def c03_configs(tier, seed):
+    cfgs = []
+    # (np, PPN): PPN divides np (or a single node) in the main grid; ragged last nodes are separate
+    # configurations because the node-aware construction deadlocks there (known finding)
+    for n, ppn in nps(tier, [(1, 2), (2, 2), (3, 3), (4, 2), (6, 3), (3, 2)],
+                      [(1, 1), (2, 1), (2, 2), (3, 3), (4, 2), (5, 5), (6, 2), (6, 3), (8, 4), (9, 3), (12, 4), (16, 4), (3, 2), (5, 3), (7, 4)]):
+        c = {"tag": f"h_c03-np{n}-ppn{ppn}", "harness": "h_c03", "np": n, "env": {"PPN": ppn}}
+        if n % ppn and n > ppn:
+            c["timeout"] = 40      # a hang is the known finding; do not wait long for it
+        cfgs.append(c)
+    return cfgs
+
+
+PROPS["C03"] = dict(
+    module="RaptorModel.Props.C03",
+    harnesses=["h_c03"],
+    configs=c03_configs,
+    rule=("random column layouts (balanced / one rank owns all / half the ranks empty) and sorted off-process index sets (random, empty, "
+          "single owner, all-to-all, first/last rank owners) and sub-packages derived by column filtering; package arrays of the real ParComm "
+          "(send messages keyed by peer) vs the model; forward exchange int/double x block 1..3, reverse exchange sum/max/select, conditional "
+          "exchanges, sparse-row exchange with/without values and its reverse, each for the standard and the topology-aware package. "
+          "Non-trivial = some rank has an off-process index."),
+    trusted=COMMON_TRUST + ["MPI transport (messages delivered unmodified, per-pair FIFO)"],
+    assumptions=["message arrival order is a parameter of the model; results are compared after keying send messages by peer"],
+)
